@@ -239,7 +239,10 @@ static std::vector<TruncBase> trunc_bases(uint64_t seed, std::vector<Format*> co
         for (auto const& v : f->variants)
             for (int k = 0; k < per_variant; ++k)
             {
-                TruncBase tb{f, v, (int)r.range(1, 7) + (k ? 3 : 0), (int)r.range(1, 4) + (k ? 2 : 0), Bytes()};
+                // base k is larger than base k-1 in both directions, so that every variant is present with at least three
+                // rows and with a width beyond the first padding / packing boundary (a single random size per variant made
+                // the detection of size-dependent defects a matter of luck: found by the seeded-change regression)
+                TruncBase tb{f, v, (int)r.range(1, 7) + 3 * k, (int)r.range(1, 4) + 2 * k, Bytes()};
                 f->make(v.name, tb.w, tb.h, 1000 + (uint64_t)k, tb.bytes);
                 if (tb.bytes.size() > 6000) continue;
                 out.push_back(std::move(tb));
@@ -514,7 +517,7 @@ int main(int argc, char** argv)
     std::vector<TruncBase> bases;
     bool trunc_mode = mode == "trunc" || mode == "truncall";
     bool fields_mode = mode == "fields" || mode == "fieldsall";
-    if (trunc_mode || fields_mode) { disk() = &gen_disk; bases = trunc_bases(seed, fmts, (mode == "truncall" || mode == "fieldsall") ? 2 : 1); disk() = nullptr; }
+    if (trunc_mode || fields_mode) { disk() = &gen_disk; bases = trunc_bases(seed, fmts, (mode == "truncall" || mode == "fieldsall") ? 3 : 2); disk() = nullptr; }
     auto make_plan = [&](long i) -> Json {
         disk() = &gen_disk;
         Json p;
